@@ -43,14 +43,16 @@ var (
 	// lz_try :: forall a. a -> a -> a   lazy; yields its first operand, or - when evaluating that
 	// fails - its second (a host function that recovers from the failure of a deferred operand)
 	SigLzTry = ref.FunSig{Name: "lz_try", Params: []*m.Type{A_, A_}, Ret: A_, Impl: "lz_try", Lazy: true}
-	SigH4    = ref.FunSig{Name: "h4", Params: []*m.Type{m.Num, A_, m.Num, A_}, Ret: A_, Impl: "h4"}
+	// the function behind the user-registered postfix operator !! :: num -> num (x + 1)
+	SigPost = ref.FunSig{Name: "!!", Params: []*m.Type{m.Num}, Ret: m.Num, Impl: "hpost"}
+	SigH4   = ref.FunSig{Name: "h4", Params: []*m.Type{m.Num, A_, m.Num, A_}, Ret: A_, Impl: "h4"}
 
 	StdHarness = []ref.FunSig{SigTr, SigBoom, SigHsub, SigHpair, SigLzIf, SigLzAnd, SigLzPick, SigLzSel4, SigLzSel6, SigLzOne, SigLzNone, SigH4, SigLzTry}
 )
 
 // IsHarnessName: the name of a harness-registered function.
 func IsHarnessName(n string) bool {
-	if n == "ov" || n == "lz_last" {
+	if n == "ov" || n == "lz_last" || n == "!!" {
 		return true
 	}
 	for _, f := range StdHarness {
@@ -184,6 +186,11 @@ func MakeHarnessFun(f ref.FunSig, tr *Tracer) *val.Val {
 		impl = func(args ...*val.Val) *val.Val {
 			tr.Add(base)
 			return force(args[1+selIndex(force(args[0]).Num().V, n)])
+		}
+	case "hpost":
+		impl = func(args ...*val.Val) *val.Val {
+			tr.Add(traceLine("hpost", []string{renderYae(args[0])}))
+			return val.Num(args[0].Num().V + 1)
 		}
 	case "lz_try":
 		impl = func(args ...*val.Val) *val.Val {
@@ -339,6 +346,10 @@ func RefHarness(sigs []ref.FunSig) map[string]ref.HarnessFun {
 			return a[1+selIndex(float64(k.N), len(a)-1)]()
 		}}
 	}
+	h["hpost"] = ref.HarnessFun{Strict: func(ev *ref.Evaluator, ret *m.Type, a []*m.Val) (*m.Val, *ref.Failure) {
+		refTrace(ev, "hpost", a)
+		return m.VNum(float64(a[0].N) + 1), nil
+	}}
 	h["lz_try"] = ref.HarnessFun{Lazy: func(ev *ref.Evaluator, ret *m.Type, a []ref.Thunk) (*m.Val, *ref.Failure) {
 		ev.Trace = append(ev.Trace, "lz_try")
 		if v, f := a[0](); f == nil {
